@@ -63,6 +63,8 @@ type FuncContract struct {
 	File      string
 	Line      int
 	Opaque    bool
+	Pure      string   // name of the spec function this (deterministic, heap-independent) function computes
+	PureArgs  []string // parameter names passed to it
 }
 
 type SpecFunc struct {
@@ -146,7 +148,7 @@ var labelRe = regexp.MustCompile(`^\[([^\]]+)\]\s*`)
 var clauseKeywords = map[string]bool{
 	"package": true, "func": true, "iface": true, "requires": true, "ensures": true, "assigns": true,
 	"decreases": true, "tags": true, "dispatch": true, "replay": true, "spec": true, "pred": true,
-	"ghost": true, "axiom": true, "lemma": true, "entry": true, "exit": true, "assert": true, "trusted": true, "params": true,
+	"ghost": true, "axiom": true, "pure": true, "lemma": true, "entry": true, "exit": true, "assert": true, "trusted": true, "params": true,
 	"globalinv": true, "call": true, "unfold": true, "use": true, "assume": true, "end": true, "opaque": true,
 }
 
@@ -385,6 +387,17 @@ func (cs *ContractSet) LoadFile(path, defaultPkg string) {
 				cur.NoBody = true
 			case kw == "opaque":
 				cur.Opaque = true
+			case kw == "pure":
+				// pure name(p1, p2)
+				i := strings.Index(rest, "(")
+				if i < 0 || !strings.HasSuffix(rest, ")") {
+					fail(rc.line, "pure name(params)")
+					continue
+				}
+				cur.Pure = strings.TrimSpace(rest[:i])
+				for _, a := range strings.Split(rest[i+1:len(rest)-1], ",") {
+					cur.PureArgs = append(cur.PureArgs, strings.TrimSpace(a))
+				}
 			case kw == "params":
 				for _, p := range strings.Split(rest, ",") {
 					cur.Params = append(cur.Params, strings.TrimSpace(p))
@@ -395,7 +408,7 @@ func (cs *ContractSet) LoadFile(path, defaultPkg string) {
 					fail(rc.line, "entry/exit needs unfold|use|assume")
 					continue
 				}
-				c := mkClause(f2[0], strings.TrimSpace(rest[len(f2[0]):]), rc.line, true)
+				c := mkClause(f2[0], strings.TrimSpace(rest[len(f2[0]):]), rc.line, f2[0] != "ghost" && f2[0] != "label")
 				if c != nil {
 					if kw == "entry" {
 						cur.Entry = append(cur.Entry, c)
